@@ -106,7 +106,7 @@ def features(pl, fmt_keywords=FMT_KEYWORDS_FALLBACK):
                 if "Float" in v:
                     x = v["Float"]
                     if x is None:
-                        fs.add("float-nonfinite")
+                        pass      # (non-finite: the lexer rejects such literals since commit d8fda67; only PL JSON can hold one)
                     elif isinstance(x, (int, float)) and float(x).is_integer() and float(x) < 9.3e18:
                         fs.add("float-integral")
             elif k == "Ident" and isinstance(v, list):
@@ -117,8 +117,6 @@ def features(pl, fmt_keywords=FMT_KEYWORDS_FALLBACK):
             elif k == "Func" and isinstance(v, dict):
                 for p in (v.get("params") or []) + (v.get("named_params") or []):
                     written_part(p.get("name", "a"))
-                if any(isinstance(p, dict) and p.get("ty") is not None for p in (v.get("named_params") or [])):
-                    fs.add("named-param-type")
             elif k in ("VarDef", "TypeDef", "ModuleDef") and isinstance(v, dict):
                 written_part(v.get("name", "a"))
             elif k == "ImportDef" and isinstance(v, dict):
@@ -305,7 +303,7 @@ def repair(j, cls):
     return fix(j)
 
 
-REPAIRABLE = ["float-integral", "float-nonfinite"]
+REPAIRABLE = ["float-integral"]
 
 
 def explained_by_repairs(pl, pl2, feats):
